@@ -34,7 +34,7 @@ fn op_kind(op: &Op) -> String {
         ),
         Op::Enter(k) => format!("enter:{}", k.name()),
         Op::Leave { panic } => if *panic { "leave:panic".into() } else { "leave".into() },
-        Op::Alloc { leaf, .. } => if *leaf { "alloc:leaf".into() } else { "alloc:node".into() },
+        Op::Alloc { kind, .. } => format!("alloc:{}", kind.name()),
         Op::ReadRoot(_) => "readroot".into(),
         Op::Read(..) => "read".into(),
         Op::Downgrade(_) => "downgrade".into(),
@@ -51,11 +51,7 @@ fn op_kind(op: &Op) -> String {
         Op::Barrier(Barrier::Fbw(Some(_), _)) => "barrier:fbw(p,c)".into(),
         Op::Store { path, v, .. } => format!(
             "store:{}:{}",
-            match path {
-                Path::Write => "write",
-                Path::Raw => "raw",
-                Path::Stb => "stb",
-            },
+            path.name(),
             match v {
                 None => "none",
                 Some(SP::S(_)) => "strong",
@@ -71,6 +67,7 @@ fn op_kind(op: &Op) -> String {
             }
         ),
         Op::DropArena => "drop".into(),
+        Op::Marker => "marker".into(),
     }
 }
 
@@ -79,7 +76,7 @@ impl Coverage {
         *self.cells.entry(key).or_insert(0) += 1;
     }
 
-    pub fn record(&mut self, op: &Op, obs: &Observed, _snap_after: &Snapshot, before: &std::collections::HashMap<u32, (u8, bool, bool)>, phase_before: u8) {
+    pub fn record(&mut self, op: &Op, obs: &Observed, _snap_after: &Snapshot, before: &std::collections::HashMap<u32, (u8, bool, bool)>, phase_before: u8, holder: Option<Kind>) {
         let col = |i: u32| before.get(&i).map(|c| (c.0 as char).to_string()).unwrap_or_else(|| "new".into());
         let ph = phase_before as char;
         let kind = op_kind(op);
@@ -113,11 +110,52 @@ impl Coverage {
                 };
                 self.bump(format!("barrier×phase×parent×child|{}|{}|{}|{}", kind, ph, p.map(col).unwrap_or("-".into()), c.map(col).unwrap_or("-".into())));
             }
-            Op::Store { p, v, .. } => {
+            Op::Store { path, p, v, .. } => {
                 self.bump(format!("store×phase×parent×child|{}|{}|{}|{}", kind, ph, col(*p), v.map(|x| col(x.id())).unwrap_or("-".into())));
+                // the same, per holder kind and outcome (the lock-valued kinds and their own setters)
+                let outcome = if obs.ret == "ok" { "stored" } else if obs.ret.starts_with("panic") { "panic" } else { "occupied" };
+                let child = match v {
+                    None => "-".to_string(),
+                    Some(SP::S(x)) => format!("s:{}", col(*x)),
+                    Some(SP::W(x)) => format!("w:{}", col(*x)),
+                };
+                // (a successful get_or_init is counted by the executor, in its barrier phase)
+                if !(*path == Path::GetOrInit && outcome == "stored") {
+                if let Some(k) = holder.filter(|k| *k != Kind::Node) {
+                    self.lock_setter(*path, k, outcome, ph, &col(*p), v);
+                }
+                self.bump(format!(
+                    "setter×holder×phase×parent×child|{}|{}|{}|{}|{}|{}",
+                    path.name(),
+                    holder.map(|k| k.name()).unwrap_or("?"),
+                    outcome,
+                    ph,
+                    col(*p),
+                    child
+                ));
+                }
+            }
+            Op::Read(..) => {
+                if let Some(k) = holder {
+                    self.bump(format!("read×holder|{}|{}", k.name(), if obs.ret == "none" { "none" } else if obs.ret.starts_with('w') { "weak" } else { "strong" }));
+                }
             }
             _ => {}
         }
+    }
+
+    /// Coarse cell of a store into an object whose whole value is a lock: route × holder kind ×
+    /// outcome × phase × holder colour × child class (sorts first in the evidence table).
+    pub fn lock_setter(&mut self, path: Path, holder: Kind, outcome: &str, ph: char, parent_col: &str, v: &SSlot) {
+        let child = match v {
+            None => "none",
+            Some(SP::S(_)) => "strong",
+            Some(SP::W(_)) => "weak",
+        };
+        if matches!(path, Path::Write | Path::Raw | Path::Stb) {
+            return; // the generic routes: see the `setter×…` / `store×…` families
+        }
+        self.bump(format!("LockSetter|{}|{}|{}|{}|{}|{}", path.name(), holder.name(), outcome, ph, parent_col, child));
     }
 
     pub fn end_sequence(&mut self) -> bool {
